@@ -109,7 +109,8 @@ static void IoReader(const Json& cmd, JsonOut& o) {
   std::vector<uint8_t> src = BytesOf(cmd.at("src"));
   o.kv_str("e", "IO");
   o.kv_str("side", "r");
-  o.kv_str("kind", kind);
+  o.kv_str("kind", kind == "fdburst" ? "fd" : kind);
+  if (kind == "fdburst") o.kv_bool("burst", true);
   o.kv_bool("bounded", bounded);
   o.kv_bool("direct", direct);
   EmitSize(o, "limit", bounded ? limit : 0);
@@ -126,7 +127,7 @@ static void IoReader(const Json& cmd, JsonOut& o) {
     ReaderSpec spec; spec.kind = kind;
     DynReader inner(spec, src.data(), src.size());
     inner.SetFault(fk, fe);
-    const bool has_skip = kind != "fd";
+    const bool has_skip = kind != "fd" && kind != "fdburst";
     if (bounded) {
       nop::BoundedReader<DynReader> br(&inner, static_cast<size_t>(limit));
       if (has_skip) RunReaderOps<nop::BoundedReader<DynReader>, true, true>(br, &inner, ops, o);
@@ -161,6 +162,15 @@ static void IoReader(const Json& cmd, JsonOut& o) {
       else RunReaderOps<FS, true, false>(r, nullptr, ops, o);
     }
     ::unlink(path.c_str());
+  } else if (kind == "fdburst") {
+    BurstFeeder feeder(heap.get(), src.size(), static_cast<unsigned>(src.size() * 17 + ops.a.size()));
+    {
+      nop::FdReader r(feeder.read_fd());
+      if (bounded) {
+        nop::BoundedReader<nop::FdReader> b(&r, static_cast<size_t>(limit));
+        RunReaderOps<decltype(b), false, false>(b, nullptr, ops, o);
+      } else RunReaderOps<nop::FdReader, false, false>(r, nullptr, ops, o);
+    }
   } else if (kind == "fd") {
     nop::FdReader r(MakeReadFd(heap.get(), src.size()));
     if (bounded) {
